@@ -387,11 +387,12 @@ Print Assumptions C01_aug_loop_fuel.
 
 (* Phase 4, the price update (:442-445) - the mathematical core of the augmentation on the array model, finite prices:
    given the Dijkstra facts DistInv (H1 d <= umin on ready, H2 d >= umin elsewhere, H3/H4 edge inequalities from r and from
-   the rows of ready columns, H5 tight pred links on ready and at the exit column, H6 d[j1] = umin), the updated prices
+   the rows of ready columns (H4 with the disjunct d[jh] = umin for the row whose scan the loop exited from), H5 tight pred links on ready and at the exit column, H6 d[j1] = umin), the updated prices
    together with any assignment whose pairs are old pairs or pred pairs at ready columns / j1 satisfy Inv again. *)
 Theorem C01_aug_price_slack : forall (n : nat) (rows : list (list (nat * ext))) (r : nat) (x y : list nat) (v d : list ext)
     (pred ready : list nat) (mu : Z) (j1 : nat),
   (forall i j c, In (j, c) (row rows i) -> (j < n)%nat /\ exists z, c = Fin z) ->
+  (forall i, NoDup (map fst (row rows i))) ->
   forall x' y', Inv n rows x y v -> (r < n)%nat -> DistInv n rows r y v d pred ready mu j1 ->
   NoDup ready -> (forall j, In j ready -> (j < n)%nat /\ (exists z, gete d j = Fin z) /\ getn y j n <> n) ->
   PIh n x' y' None -> length x' = n -> length y' = n ->
